@@ -120,6 +120,22 @@ def run(chk: common.Check):
     # a chain whose groups are not contiguous in record order: the ligand of 1HPX written with chain id A after chain B
     cases.append(("1HPX.pdb ligand re-chained to A", "\n".join((l[:21] + "A" + l[22:]) if (l[:6] == "HETATM" and l[17:20] == "KNI") else l
                                                               for l in structures.read("1HPX.pdb").splitlines()) + "\n", [], "default"))
+    # a hetero group on a chain identifier that no ATOM record uses
+    cases.append(("1HPX.pdb ligand on its own chain L", "\n".join((l[:21] + "L" + l[22:]) if (l[:6] == "HETATM" and l[17:20] == "KNI") else l
+                                                                 for l in structures.read("1HPX.pdb").splitlines()) + "\n", [], "default"))
+    # an ensemble whose models discard DIFFERENT members of a covalently coupled system: 4DFR (alternate A, ligands MTX / CL), model 2 = the same
+    # structure with chains A and B exchanged, 300 A away (in chain A the discarded pteridine nitrogen then differs between the models)
+    m1_, m2_ = [], []
+    for l in structures.read("4DFR.pdb").splitlines():
+        if not structures.is_atom(l) or l[16] not in " A" or (l[:6] == "HETATM" and l[17:20].strip() not in ("MTX", "CL")):
+            continue
+        l = l[:16] + " " + l[17:]
+        if l[17:20] == "MTX":
+            l = l[:22] + " 161" + l[26:]
+        m1_.append(l)
+        m2_.append(structures.set_xyz(l[:21] + {"A": "B", "B": "A"}[l[21]] + l[22:], structures.get_xyz(l)[0] + 300, structures.get_xyz(l)[1], structures.get_xyz(l)[2]))
+    m2_.sort(key=lambda l: l[21])
+    cases.append(("4DFR as two models, chains exchanged in the second", structures.as_models(["\n".join(m1_) + "\n", "\n".join(m2_) + "\n"]), [], "default"))
     big = ["3SGB-subset.pdb"] + (["1HPX.pdb", "1FTJ-Chain-A.pdb", "4DFR.pdb"] if chk.thorough else [])
     for n in big:
         t = structures.read(n)
